@@ -252,8 +252,12 @@ def _str_body(d):
     return (len(d) + 1).to_bytes(4, "little") + d + b"\x00"
 
 
-def _elements(v, mode, limit):
+def _elements(v, mode, limit, modes=None, path=()):
     """list of (type byte, payload) alternatives for a value."""
+    if modes is not None:
+        mode = modes.get(path, "min")
+    if mode == "one":
+        mode = "min"
     k, d, t = v[0], v[1], v[2]
     if k == 'null':
         return [(0x0a, b"")]
@@ -280,27 +284,29 @@ def _elements(v, mode, limit):
         sub = d[1] if d[1] is not None else 0
         return [(0x05, len(d[0]).to_bytes(4, "little") + bytes([sub]) + d[0])]
     if k == 'arr':
-        return [(0x04, b) for b in _doc_bodies([(str(i).encode(), e) for i, e in enumerate(d)], mode, limit)]
+        return [(0x04, b) for b in _doc_bodies([(str(i).encode(), e) for i, e in enumerate(d)], mode, limit, modes, path, True)]
     if k == 'obj':
-        return [(0x03, b) for b in _doc_bodies(d, mode, limit)]
+        return [(0x03, b) for b in _doc_bodies(d, mode, limit, modes, path, False)]
     raise ValueError("ref_bson cannot encode %r" % (k,))
 
 
-def _doc_bodies(items, mode, limit):
+def _doc_bodies(items, mode, limit, modes=None, path=(), is_array=False):
     seq = []
-    for name, v in items:
-        seq.append([bytes([t]) + name + b"\x00" + p for t, p in _elements(v, mode, limit)])
+    for i, (name, v) in enumerate(items):
+        cp = path + ((i,) if is_array else (i, 'v'))
+        seq.append([bytes([t]) + name + b"\x00" + p for t, p in _elements(v, mode, limit, modes, cp)])
     out = []
     for body in _product(seq, limit - 5):
         out.append((len(body) + 5).to_bytes(4, "little") + body + b"\x00")
     return out
 
 
-def encodings(v, mode="full", limit=1 << 30, child_mode=None):
-    """Every legal encoding of a root document (int32-representable integers as int32 and as int64)."""
+def encodings(v, mode="full", limit=1 << 30, child_mode=None, modes=None, path=()):
+    """Every legal encoding of a root document (int32-representable integers as int32 and as int64).
+    With `modes` (dict path -> mode, default "one"): per-node choice as in ref_cbor.encodings."""
     if v[0] != 'obj':
         raise ValueError("the root of a BSON document is an object")
-    for b in _doc_bodies(v[1], mode, limit):
+    for b in _doc_bodies(v[1], mode, limit, modes, path, False):
         if len(b) <= limit:
             yield b
 
